@@ -277,3 +277,15 @@ def check(model, rep, tier):
                 'nonlocal) must be live, hence carried as state, whatever the '
                 'statement itself assigns', {'counterexample': cex},
                 line=vn.node.lineno, witness=wit)
+
+  # ---------------------------------------------------------------- dependencies
+  rep.depends('C08', ['ACT-TRAV', 'ACT-ORDER'],
+              'the state of a block is selected from the read / modified sets and '
+              'from liveness, both built on what the activity analysis visits')
+  rep.depends('C03', ['GETSET', 'QN-SUPPORT'],
+              'a tracing backend touches variables only through get_state / '
+              'set_state (and ldu for composites); composites enter the state '
+              'only when their whole support is live')
+  rep.depends('C07', ['LV-CLOSURE'],
+              'variables read only by a closure stay in the outputs because '
+              'reaching function definitions keep them live')
